@@ -349,6 +349,7 @@ func (w *World) Explore(name string, opts ExploreOpts) *HarnessReport {
 				rep.Completed++
 			case "infeasible":
 				rep.Infeasible++
+				rep.UnsupportedM["(infeasible) "+res.Msg]++
 			case "assumed":
 				rep.Assumed++
 			case "unsupported":
